@@ -110,6 +110,7 @@ class Exec:
         return m
 
     def record_formula(self, label, pc, negpost):
+        self.n_recorded = getattr(self, 'n_recorded', 0) + 1
         if len(self.formulas) < 4000:
             s = Solver(); s.add(*[c for c in pc if not isinstance(c, bool)]); s.add(negpost)
             self.formulas.append((label, s.to_smt2()))
@@ -275,6 +276,8 @@ class Exec:
             if mm: return bv(ord(mm.group(1)), 8)
             c = self.eval_const(name)
             return c if c is not None else Opaque('const ' + name)
+        if re.match(r'(?:<.*>|[\w:]+)::\w+$', tok) and not re.fullmatch(r'_\d+', tok) and '(' not in tok.split('>')[-1]:
+            return {'__fnitem': strip_generics(tok)}          # a function item used as a value (e.g. passed to Iterator::map)
         return self.read(fid, env, tok)
 
     def eval_const(self, name):
@@ -350,7 +353,11 @@ class Exec:
                     continue
                 raise Inconclusive('statement ' + st[:120])
             dst, rhs = m.groups()
-            self.write(fid, env, dst, self.rvalue(fn, fid, env, rhs))
+            val = self.rvalue(fn, fid, env, rhs)
+            if rhs.startswith('discriminant(') and is_bv(val):
+                wd = WIDTH.get(fn.locals.get(dst.strip(), '').strip())
+                if wd and wd != val.size(): val = SignExt(wd - val.size(), val) if wd > val.size() else Extract(wd - 1, 0, val)
+            self.write(fid, env, dst, val)
         raise Inconclusive('fell off ' + bb)
 
     def on_drop(self, fn, fid, env, place):
@@ -584,7 +591,6 @@ class Exec:
             if d is None:
                 if isinstance(v, Opaque): return v
                 raise Inconclusive('discriminant of %r' % (v,))
-            if d.size() != 64: d = SignExt(64 - d.size(), d)
             return d
         mm = re.match(r'\[(const [^;]*); (\d+)\]$', rhs)
         if mm and mm.group(1) == 'const 0_u8': return {'len': bv(int(mm.group(2))), 'kind': 'zeros'}
